@@ -21,19 +21,68 @@ def normIndex (n : Nat) (v : Int) : Option Nat :=
 theorem shapeTake_eq_spec (s : Shape) (n k : Nat) (hk : k < s.length) :
     shapeTake s n (k : Int) = takeShapeSpec s n k := by
   unfold shapeTake takeShapeSpec
-  rw [mapAt_nat]
+  rw [normAxis_nat, mapAt_nat]
   have : s[k]? = some s[k] := by simp [hk]
   rw [this]
   simp [List.set_eq_take_append_cons_drop, hk]
 
-theorem takeEntry_nat (ind : List Int) (x j : Nat) (h : ind[x]? = some (j : Int)) : takeEntry ind x = j := by
-  simp [takeEntry, h, i2u_nat]
+/-- `normalize_take_index` computes NumPy's reading of an entry inside `[-extent, extent)` -/
+theorem takeEntry_norm (ind : List Int) (n x : Nat) (v : Int) (j : Nat) (h : ind[x]? = some v)
+    (hn : normIndex n v = some j) : takeEntry ind n x = j := by
+  simp only [takeEntry, h]
+  unfold normIndex at hn
+  split at hn
+  · rename_i h1
+    simp only [Option.some.injEq] at hn
+    have : ¬ v < 0 := by omega
+    rw [if_neg this, i2u_of_nonneg _ h1.1]; exact hn
+  · split at hn
+    · rename_i h2
+      simp only [Option.some.injEq] at hn
+      rw [if_pos h2.2, i2u_of_nonneg _ (by omega)]; exact hn
+    · simp at hn
 
-theorem indexTake_eq (d : Idx) (ind : List Int) (k x j : Nat) (hx : d[k]? = some x) (hj : ind[x]? = some (j : Int)) :
-    indexTake d ind (k : Int) = d.set k j := by
+theorem takeEntry_nat (ind : List Int) (n x j : Nat) (h : ind[x]? = some (j : Int)) : takeEntry ind n x = j := by
+  have : ¬ ((j : Int) < 0) := by omega
+  simp [takeEntry, h, this, i2u_nat]
+
+/-- a non-negative entry is used as it is, whatever the extent -/
+theorem indexTake_eq_nat (d : Idx) (s : Shape) (ind : List Int) (k x j : Nat)
+    (hx : d[k]? = some x) (hj : ind[x]? = some (j : Int)) : indexTake d s ind (k : Int) = d.set k j := by
   unfold indexTake
-  rw [mapAt_nat, hx]
-  simp [takeEntry_nat ind x j hj]
+  rw [normAxis_nat, mapAt_nat, hx]
+  simp [takeEntry_nat ind _ x j hj]
+
+theorem normIndex_lt (n : Nat) (v : Int) (j : Nat) (h : normIndex n v = some j) : j < n := by
+  unfold normIndex at h
+  split at h
+  · simp only [Option.some.injEq] at h; omega
+  · split at h
+    · simp only [Option.some.injEq] at h; omega
+    · simp at h
+
+theorem normIndex_isSome (n : Nat) (v : Int) (h1 : -(n : Int) ≤ v) (h2 : v < n) : ∃ j, normIndex n v = some j := by
+  unfold normIndex
+  by_cases c : 0 ≤ v ∧ v < n
+  · exact ⟨_, by rw [if_pos c]⟩
+  · have c2 : -(n : Int) ≤ v ∧ v < 0 := by omega
+    exact ⟨_, by rw [if_neg c, if_pos c2]⟩
+
+theorem axisExtent_nat (s : Shape) (k n : Nat) (h : s[k]? = some n) : axisExtent s (k : Int) = n := by
+  simp [axisExtent, normAxis_nat, h]
+
+theorem indexTake_eq (d : Idx) (s : Shape) (ind : List Int) (k x n : Nat) (v : Int) (j : Nat)
+    (hx : d[k]? = some x) (hn : s[k]? = some n) (hv : ind[x]? = some v) (hj : normIndex n v = some j) :
+    indexTake d s ind (k : Int) = d.set k j := by
+  unfold indexTake
+  rw [normAxis_nat, mapAt_nat, hx, axisExtent_nat s k n hn]
+  simp [takeEntry_norm ind n x v j hv hj]
+
+/-- an accepted (possibly negative) axis behaves exactly like its normalised position -/
+theorem takeView_axis_normalize (s : Shape) (ind : List Int) (axis : Int) (k : Nat)
+    (hk : normalizeAxis1 axis s.length = some k) :
+    takeView s ind (some axis) = takeView s ind (some (k : Int)) := by
+  simp [takeView, shapeTake, indexTake, axisExtent, normAxis_of_normalizeAxis1 axis _ k hk, normAxis_nat]
 
 theorem takeShapeSpec_length (s : Shape) (n k : Nat) (hk : k < s.length) : (takeShapeSpec s n k).length = s.length := by
   simp [takeShapeSpec]; omega
